@@ -459,16 +459,11 @@ def r7(ctx: Context) -> None:
                     n += 1
                     roots = names_in(key)
                     own_key = bool(roots) and roots <= params
-                    guarded = False
-                    cur = pm.get(id(x))
-                    child = x
-                    while cur is not None and cur is not m.node:
-                        if isinstance(cur, ast.If) and any(child is b_ or any(child is y for y in ast.walk(b_)) for b_ in cur.body):
-                            t = cur.test
-                            if isinstance(t, ast.UnaryOp) and isinstance(t.op, ast.Not) and isinstance(t.operand, ast.Subscript) and self_attr(t.operand) == attr and ast.unparse(t.operand.slice) == ast.unparse(key):
-                                guarded = True
-                        child = cur
-                        cur = pm.get(id(cur))
+                    # `not self.<index>[key]` holds on every path to the removal (nested if, guard clause, ...)
+                    from ..flow import conditions_at, func_cfg
+
+                    guarded = any(isinstance(t, ast.UnaryOp) and isinstance(t.op, ast.Not) and isinstance(t.operand, ast.Subscript) and self_attr(t.operand) == attr and ast.unparse(t.operand.slice) == ast.unparse(key)
+                                  for t in conditions_at(func_cfg(ctx.repo, m), m.node, x, pm))
                     ok = own_key or guarded
                     ctx.add("R7", f"{m.qualname}::whole-key-removal::{attr}", ok, m.loc(x), "" if ok else f"`{ast.unparse(x)[:70]}` drops every member stored under a key that was reached through another entity's references: members belonging to other entities disappear (the SQLite sibling deletes by member column only)")
     ctx.floor("R7", "whole-key removals on multi-valued indexes", n, 4)
